@@ -138,6 +138,21 @@ class Contract:
         self.loops = loops or {}
         self.setup = setup or []
 
+    def split(self):
+        """one contract per lane post-condition (multiplicative obligations are discharged one lane per solver call)"""
+        import copy
+        lane = [(l, e) for l, e in self.ensures if re.search(r'lane \d+$', l)]
+        rest = [(l, e) for l, e in self.ensures if not re.search(r'lane \d+$', l)]
+        if 'split' not in self.flags or len(lane) < 2:
+            return [self]
+        out = []
+        for i, le in enumerate(lane):
+            c = copy.copy(self)
+            c.ensures = [le] + (rest if i == 0 else [])
+            c.part = i
+            out.append(c)
+        return out
+
     def clauses(self):
         out = []
         reqs = list(self.requires)
@@ -184,6 +199,9 @@ class Ctx:
 
 
 def eq_lane(t, lhs_e, i, spec):
+    m = re.match(r'^spec_mul\((.*), (\d+)\)$', spec)
+    if m:
+        return 'spec_mul_ok(%s, %s, %s)' % (t.lane(lhs_e, i), m.group(1), m.group(2))
     return '%s == (%s)' % (t.lane(lhs_e, i), spec)
 
 
@@ -250,7 +268,7 @@ ARITH_BIN = {'operator+': ('spec_add', '+'), 'operator-': ('spec_sub', '-'), 'op
 
 def mul_flags(t, name):
     if 'mul' in name or '*' in name:
-        return ['mul']
+        return ['mul', 'split'] if (t.bits >= 32 and t.W > 1) else (['mul'] if t.bits >= 32 else [])
     return []
 
 
